@@ -37,3 +37,9 @@ type Parser interface {
 
 func NewPhp5Parser(lexer *Lexer, config conf.Config) Parser { return php5.NewParser(lexer, config) }
 func NewPhp7Parser(lexer *Lexer, config conf.Config) Parser { return php7.NewParser(lexer, config) }
+
+// goyacc debug trace of the two generated parsers (see internal/php{5,7}/verif_debug.go)
+func SetPhp5Debug(n int)     { php5.VerifSetDebug(n) }
+func SetPhp7Debug(n int)     { php7.VerifSetDebug(n) }
+func Php5Toknames() []string { return php5.VerifToknames() }
+func Php7Toknames() []string { return php7.VerifToknames() }
